@@ -13,6 +13,8 @@ namespace {
 
 template <typename B>
 void checkBagAll(Case& c, B& b, const std::vector<int>& m, unsigned cap, bool tracked) {
+  if (!c.regOk())
+    return;
   const B& cb = b;
   c.eq("empty", cb.empty(), m.empty());
   if (c.bad)
@@ -173,9 +175,11 @@ void run_InsertBag(Case& c) {
   bool pops     = c.rng.below(2) == 0;
   unsigned nops = c.pickOps();
   std::string cfg = "cap" + std::to_string(cap) + (tracked ? "|tracked" : "|pod") + (pops ? "|pop" : "");
-  c.begin("InsertBag", cfg,
+  if (!c.begin("InsertBag", cfg,
           J().kv("block_capacity", cap ? std::to_string(cap) : std::string("page"))
-              .kv("elem", tracked ? "tracked" : "pod").kv("pop_enabled", pops).kv("nops", nops));
+              .kv("elem", tracked ? "tracked" : "pod").kv("pop_enabled", pops).kv("nops", nops),
+               pops ? "pop" : ""))
+    return;
   unsigned capForStats = cap ? cap : 1u << 30;
   (void)capForStats;
   if (tracked)
